@@ -10,7 +10,8 @@ Lemma infer_scalar : forall st k v, in_range k v = true ->
   inferJson cfg_fixed st (mkSlot (lit_otype (LScalar k v)) true) = Ok (JNum k v).
 Proof.
   intros st k v H. unfold inferJson. cbn [sl_val lit_otype mk_scalar o_tag].
-  destruct k; try reflexivity. cbn [o_val pint]. rewrite (int_cast_id KBool v H). reflexivity.
+  destruct k; try reflexivity. cbn. apply in_range_spec in H. cbn in H.
+  destruct (Z.eqb_spec v 0); [subst; reflexivity | do 2 f_equal; lia].
 Qed.
 
 Lemma strictly_below_nil_r : forall p, strictly_below p [] = false.
